@@ -8,9 +8,15 @@ const (
 
 var helperFields = []field{{"s.sqrtPriceLimit", tDec}, {"s.feeRate", tDec}}
 
-func genFiles() []genFile {
-	return []genFile{
-		{
+var registry []genFile
+
+func registerGen(g genFile) { registry = append(registry, g) }
+
+func genFiles() []genFile { return registry }
+
+func init() {
+	registerGen(
+		genFile{
 			name:    "KernelsCL",
 			imports: []string{"SunriseVerif.Model.Dec"},
 			targets: []target{
@@ -47,6 +53,5 @@ func genFiles() []genFile {
 				{kind: "func", file: helperGo, recv: "quoteForBaseHelper", name: "NextTickAfterCrossing", lean: "qfb_NextTickAfterCrossing", fields: helperFields},
 				{kind: "func", file: helperGo, recv: "quoteForBaseHelper", name: "ValidateSqrtPrice", lean: "qfb_ValidateSqrtPrice", fields: helperFields},
 			},
-		},
-	}
+		})
 }
